@@ -25,6 +25,10 @@ class _Unknown:
     pass
 
 
+def uses_parent_attr(case):
+    return any(e.get("attr") == "parent" for r in case["gram"]["rules"] if r["kind"] == "common" for e in r["elems"])
+
+
 def spec_gen(rng, exp, classes):
     k = rng.weighted([("all", 3), ("cls", 4), ("ids", 4), ("none", 1)])
     if k == "cls":
@@ -76,11 +80,12 @@ class Prop(Check):
         "Obj.C05_children_order",
         "Obj.C05_children_of_type",
         "Obj.C05_refs_inert",
+        "Obj.C05_refs_inert_update",
         "Obj.C05_parent_of_type",
         "Obj.C05_ancestors_contained",
     ]
     DRIVER = "Drivers/Obj.lean"
-    QUICK_CASES = 400
+    QUICK_CASES = 300
     THOROUGH_CASES = 12000
     RULE = ("random grammar (2-6 common rules, abstract and match rules, recursion, references, user classes) + derived "
             "model + 6-14 navigation calls; non-trivial = model with >= 4 contained objects, nesting depth >= 2, at "
@@ -104,6 +109,12 @@ class Prop(Check):
         for k in range(n):
             r = rng.fork(f"case{k}")
             gram = G.gen_grammar(r)
+            if r.chance(0.04):
+                # an attribute that happens to be called like textX's own container link
+                els = [e for ru in gram["rules"] if ru["kind"] == "common" for e in ru["elems"]
+                       if e["k"] in ("prim", "cont") and not e.get("bare")]
+                if els:
+                    r.choice(els)["attr"] = "parent"
             tree = G.derive(r, gram, maxdepth=r.randint(2, 5))
             _, exp = G.expected(gram, tree, PLAIN)
             layout = PLAIN if r.chance(0.7) else G.gen_layout(r, gram, len([1 for x in G.tokens(gram, tree) if x[0] == "tok"]))
@@ -322,6 +333,8 @@ class Prop(Check):
     # ------------------------------------------------------------------ oracle
     def oracle(self, case, obs):
         oc = obs.get("outcome")
+        if oc == "error" and obs.get("type") == "TextXSemanticError" and uses_parent_attr(case):
+            return None  # the grammar is rejected (reserved attribute name): there is no model
         if oc == "error" or oc == "other":
             return f"loading the derived model failed: {obs.get('type')} {obs.get('msg')}"
         if oc == "shape":
